@@ -186,6 +186,15 @@ Proof.
   repeat split; try reflexivity. vm_compute. discriminate.
 Qed.
 
+(* class 4: the handler sends headers after the client's context has ended (none sent before): the
+   wrapper's Header() shows them afterwards, a real connection delivers nothing to a finished call *)
+Theorem C13_header_after_context_end_refuted : exists sc,
+  wf sc = true /\ known_class sc = Some 4 /\ wrap_run fx_now sc <> grpc_run sc.
+Proof.
+  exists (mkScn Bidi 0 [] CtxLive [CtxEnd false; SendH [(0, 7)]; Ret (RetOk 0)]).
+  repeat split; try reflexivity. vm_compute. discriminate.
+Qed.
+
 (* class 3 (outside every scenario): SendMsg after CloseSend and a second CloseSend panic in the
    wrapper; a real connection answers with an Internal error and with nil *)
 Theorem C13_client_misuse_refuted : forall k, w_misuse k <> g_misuse k.
@@ -200,6 +209,17 @@ Example C13_nonvacuous_deadline :
   wrap_run fx_now sc =
   ([CSent true; CClosed; CGot 8; CEnd ODeadline; CHdr [(0, 1)]; CTrl []],
    [SEntered 3; SIncoming [(0, 2); (1, 7)]; SSetH true; SSent true; SDone true]).
+Proof. repeat split; reflexivity. Qed.
+
+(* the handler goes on after the client's deadline has expired: sets headers and an empty trailer, tries
+   to send, fails to receive, returns an error -- none of it reaches the client *)
+Example C13_nonvacuous_after_context_end :
+  let sc := mkScn Bidi 0 [] CtxLive
+              [C2S 4; SetH [(0, 1)]; CtxEnd true; SetH [(1, 2)]; S2C 9; SetT []; RecvEOF; Ret (RetStatus 5 4)] in
+  wf sc = true /\ no_known sc = true /\
+  wrap_run fx_now sc =
+  ([CSent true; CEnd ODeadline; CHdr []; CTrl []],
+   [SEntered (-1); SIncoming []; SGot 4; SSetH true; SDone true]).
 Proof. repeat split; reflexivity. Qed.
 
 (* a call made on a context whose deadline has already passed *)
